@@ -255,10 +255,15 @@ func c08DrawPlan(t *rapid.T) *c08Plan {
 		p.Pays = append(p.Pays, x)
 	}
 
-	// Cuts only in phases that are followed by a restart (a cut
-	// connection stays dead until the peers reconnect).
-	for ph := 0; ph < p.Restarts; ph++ {
+	// Cuts: a cut connection stays dead until the peers reconnect, i.e.
+	// until the restart that ends the phase, a generated link flap, or -
+	// in the last phase - the flap the harness performs when the wire has
+	// gone idle.
+	for ph := 0; ph <= p.Restarts; ph++ {
 		nCut := rapid.SampledFrom([]int{0, 1, 1, 1, 2, 2}).Draw(t, "nCut")
+		if ph == p.Restarts {
+			nCut = rapid.SampledFrom([]int{0, 0, 1}).Draw(t, "nCutLast")
+		}
 		for i := 0; i < nCut; i++ {
 			c := &c08CutPlan{Phase: ph}
 			c.Edge = c08Edge(rapid.IntRange(
@@ -650,12 +655,10 @@ func (r *c08Run) flap(ch int) bool {
 	)
 	if ch == 0 {
 		pair, sA, sB = r.cl.ab, r.n.aliceServer, r.n.bobServer
-		dA, dB = r.n.aliceOnionDecoder, r.n.bobOnionDecoder
 		nameA, nameB, edge = "alice", "bob first", c08AtoB
 		lA, lB = r.n.aliceChannelLink, r.n.firstBobChannelLink
 	} else {
 		pair, sA, sB = r.cl.bc, r.n.bobServer, r.n.carolServer
-		dA, dB = r.n.bobOnionDecoder, r.n.carolOnionDecoder
 		nameA, nameB, edge = "bob second", "carol", c08BtoC
 		lA, lB = r.n.secondBobChannelLink, r.n.carolChannelLink
 	}
@@ -664,11 +667,32 @@ func (r *c08Run) flap(ch int) bool {
 	}
 	r.flaps++
 
+	// Connection dies: nothing is delivered any more, both links go
+	// away, and whatever still sits in the two servers' queues is taken
+	// off (and dropped) before the new connection starts.
+	r.tap.disconnect(edge)
 	r.stopping.Store(true)
 	sA.htlcSwitch.RemoveLink(pair.chanID)
 	sB.htlcSwitch.RemoveLink(pair.chanID)
 	r.stopping.Store(false)
+	for len(r.tap.sentinel) > 0 {
+		<-r.tap.sentinel
+	}
+	_ = sA.SendMessage(false, &lnwire.Ping{})
+	_ = sB.SendMessage(false, &lnwire.Ping{})
+	for i := 0; i < 2; i++ {
+		select {
+		case <-r.tap.sentinel:
+		case <-time.After(r.deadline):
+			r.inconclusive = "flap: server queue not drained"
+			return false
+		}
+	}
+	// New connection: the links' reestablish messages are held until
+	// both links exist (a server discards messages for a missing link).
 	r.tap.reconnect(edge)
+	defer r.tap.release(edge)
+	dA, dB = newMockIteratorDecoder(), newMockIteratorDecoder()
 	r.mu.Lock()
 	r.resumed[nameA], r.resumed[nameB] = false, false
 	r.mu.Unlock()
@@ -718,6 +742,7 @@ func (r *c08Run) flap(ch int) bool {
 	} else {
 		r.n.secondBobChannelLink, r.n.carolChannelLink = nA, nB
 	}
+	r.tap.release(edge)
 
 	until := time.Now().Add(r.deadline)
 	for !nA.EligibleToForward() || !nB.EligibleToForward() {
@@ -1104,6 +1129,16 @@ func (r *c08Run) run() []string {
 		// the next update on that channel (lnd behaviour, liveness
 		// only). Doomed payments in both directions provide that
 		// update.
+		// A connection that was cut in the last phase is re-established
+		// (link flap) once the wire has gone idle.
+		if _, since := r.tap.snapshot(); !ok && since >= r.nudgeIdle {
+			if ch := r.tap.cutChannel(); ch >= 0 {
+				if !r.flap(ch) {
+					return nil
+				}
+				continue
+			}
+		}
 		if _, since := r.tap.snapshot(); !ok && since >= r.nudgeIdle &&
 			r.nudges < 3 {
 
